@@ -164,7 +164,10 @@ func decimalFloat(r *rand.Rand, digits, exp int) float64 {
 		mant = mant*10 + uint64(r.IntN(10))
 	}
 	f, _ := strconv.ParseFloat(fmt.Sprintf("%de%d", mant, exp), 64)
-	if r.IntN(2) == 0 {
+	if math.IsInf(f, 0) { // beyond the range: the largest finite value
+		f = math.MaxFloat64
+	}
+	if f != 0 && r.IntN(2) == 0 { // (never -0)
 		f = -f
 	}
 	return f
